@@ -498,6 +498,11 @@ class AlignmentCollector:
             max_cov = coverage_dict[current_start]
             pos = min(current_start + 1, coverage_positions[-1] + 1)
 
+        if not split_regions or split_regions[-1][1] < genomic_region[1]:
+            # the scan stopped on the last covered bin (or there is a single bin): add the remaining part
+            split_regions.append((max(current_start * AbstractAlignmentStorage.COVERAGE_BIN + 1, genomic_region[0]),
+                                  genomic_region[1]))
+
         return split_regions
 
     @staticmethod
